@@ -275,7 +275,7 @@ func checkPaths(rt *rapid.T, cols []colSpec, rows int) {
 		preInBuffer := rapid.IntRange(0, 2).Draw(rt, "before-is-in-the-writers-buffer") == 0
 		// Block path.
 		_, inA := libInput(cols, false)
-		_, inB := libInput(cols, false)
+		colsB, inB := libInput(cols, false)
 		blk := proto.Block{Info: proto.BlockInfo{BucketNum: -1}, Columns: len(cols), Rows: rows}
 		var want proto.Buffer
 		want.PutRaw(pre)
@@ -303,6 +303,33 @@ func checkPaths(rt *rapid.T, cols []colSpec, rows int) {
 		}
 		if !bytes.Equal(s.got, want.Buf) {
 			rt.Fatalf("WriteBlock+Flush differs from EncodeBlock for %v rows=%d rev=%d at byte %d:\nvectored %x\nbuffered %x", typeNames(cols), rows, rev, firstDiff(s.got, want.Buf), trunc(s.got), trunc(want.Buf))
+		}
+		// Writing must leave the columns as they were: same rows afterwards, and a second write
+		// of the same column objects (a retry, the next block without reset) gives the same bytes.
+		for i, cb := range colsB {
+			vals, err := readAll(cb)
+			if err != nil {
+				rt.Fatalf("column %d (%s) unreadable after WriteBlock: %v", i, cols[i].Kind.T.Name, err)
+			}
+			if j, ok := ref.EqualRows(cols[i].Kind.T, vals, cols[i].Rows); !ok {
+				rt.Fatalf("WriteBlock+Flush changed the column it wrote: %s (%d rows) row %d is now %s, was %s", cols[i].Kind.T.Name, rows, j,
+					ref.Show(cols[i].Kind.T, vals[j]), ref.Show(cols[i].Kind.T, cols[i].Rows[j]))
+			}
+		}
+		{
+			s3 := &sink{failAt: -1}
+			w3 := proto.NewWriter(s3, new(proto.Buffer))
+			w3.ChainBuffer(func(b *proto.Buffer) { b.PutRaw(pre) })
+			if err := safely(func() error { return blk.WriteBlock(w3, rev, inB) }); err != nil {
+				rt.Fatalf("second WriteBlock of the same columns: %v", err)
+			}
+			w3.ChainBuffer(func(b *proto.Buffer) { b.PutRaw(post) })
+			if _, err := w3.Flush(); err != nil {
+				rt.Fatalf("flush: %v", err)
+			}
+			if !bytes.Equal(s3.got, want.Buf) {
+				rt.Fatalf("writing the same columns a second time gives different bytes for %v rows=%d rev=%d (first difference at %d)", typeNames(cols), rows, rev, firstDiff(s3.got, want.Buf))
+			}
 		}
 		// Column path, per column, with Prepare as the block encoder does.
 		for _, c := range cols {
@@ -349,9 +376,12 @@ func TestEveryKindC14(t *testing.T) {
 		salt := rapid.IntRange(1, 1<<20).Draw(rt, "salt")
 		for ki, k := range gen.Kinds {
 			rows := []int{3, 1, 0, 5}[(ki+salt)%4]
+			if k.Shape == "X" && (ki+salt)%3 == 0 {
+				rows = []int{1023, 1024, 1100, 2048}[(ki+salt)%4] // past the sizes a codec may switch strategy at
+			}
 			var kv []ref.Val
 			for i := 0; i < rows; i++ {
-				kv = append(kv, k.Value.Example(salt+13*ki+i))
+				kv = append(kv, k.Value.Example(salt+13*ki+i%251))
 			}
 			checkPaths(rt, []colSpec{{Name: "k", Kind: k, Rows: kv}}, rows)
 		}
